@@ -79,10 +79,12 @@ func (t *Dense) UT() {
 // SafeT is exactly like T(), except it returns a new *Dense. The data is also copied over, unmoved.
 func (t *Dense) SafeT(axes ...int) (retVal *Dense, err error) {
 	var transform AP
+	var noop bool
 	if transform, axes, err = t.AP.T(axes...); err != nil {
 		if err = handleNoOp(err); err != nil {
 			return
 		}
+		noop = true
 	}
 
 	retVal = recycledDense(t.t, Shape{t.len()}, WithEngine(t.e))
@@ -91,8 +93,12 @@ func (t *Dense) SafeT(axes ...int) (retVal *Dense, err error) {
 	retVal.e = t.e
 	retVal.oe = t.oe
 	retVal.AP = transform
-	t.AP.CloneTo(&retVal.old)
-	retVal.transposeWith = axes
+	if !noop {
+		// only a real transposition is pending on the copy: recording one for a no-op
+		// makes the next T() on the copy look like its reversal
+		t.AP.CloneTo(&retVal.old)
+		retVal.transposeWith = axes
+	}
 
 	return
 }
